@@ -109,6 +109,11 @@ def random_spline_case(rng, cid):
     fx = lambda v: int(round(float(v) * V))
     below = [fx(sy(kx[0] - d)) for d in (0.1, 5.0, 300.0)]
     above = [fx(sy(kx[-1] + d)) for d in (0.1, 5.0, 300.0)]
+    # the same for levels given as integers (a Python int, an integer array): constant beyond the end knots
+    # whatever the type of the argument
+    ilo, ihi = int(math.floor(kx[0])) - 3, int(math.ceil(kx[-1])) + 3
+    below += [fx(sy(ilo)), fx(np.asarray(sy(np.array([ilo, ilo - 40])))[1])]
+    above += [fx(sy(ihi)), fx(np.asarray(sy(np.array([ihi, ihi + 40])))[1])]
     triples = []
     span = kx[-1] - kx[0]
     I = 100      # integrals in units of 0.01 mm
